@@ -90,4 +90,122 @@ static inline bool v_autom_closed(const automata *a) {
     return true;
 }
 
+/* =============================== C14 / C15: automaton step ====================================== */
+#define PRE_switch(a)  (AUTOM_SHAPE(a) && v_autom_closed(a))
+
+/* mapping engine, from the statement of C14.  States 0 idle, 1 Command, 2 Emit.  tmo = the automaton's own
+ * timeout of s0 (checked separately to be non-zero and <= 30 for the active states). */
+static inline bool v_mapping_step_ok(uint8_t s0, int input, uint64_t elapsed, short tmo, uint8_t s1) {
+    if (s0 != 0 && tmo != 0 && elapsed > (uint64_t)tmo) {
+        /* timed out: back to idle; only a Discover may reopen a session in that same step */
+        return s1 == 0 || (input == 0x00 && s1 == 1);
+    }
+    if (input == 0x00) return s1 == (s0 == 0 ? 1 : s0);          /* Discover opens a session          */
+    if (input == 0x02) return s1 == (s0 == 1 ? 2 : s0);          /* Emit: Command -> Emit             */
+    if (input == -3)   return s1 == (s0 == 2 ? 1 : s0);          /* emission complete: Emit -> Command */
+    if (input == 0x08) return s1 == 0;                           /* Reset ends the session            */
+    if (input == -1)   return s1 == 0;                           /* explicit timeout event (tick)     */
+    return s1 == s0;                                             /* every other frame: unchanged      */
+}
+
+/* session automaton, from the statement of C15.  States 0 Temporary, 1 Nascent, 2 Pending, 3 Complete. */
+static inline bool v_session_step_ok(uint8_t s0, int ev, uint64_t elapsed, short tmo, uint8_t s1) {
+    if (tmo != 0 && elapsed > (uint64_t)tmo) return s1 == 1;     /* inactivity: every state -> Nascent */
+    if (ev == 0x01) return s1 == 1;                              /* Reset: every state -> Nascent      */
+    switch (s0) {
+        case 1: /* Nascent */
+            if (ev == 0x02) return s1 == 2;                      /* non-acknowledging Discover         */
+            if (ev == 0x03) return s1 == 3;                      /* acknowledging Discover             */
+            if (ev == 0x00) return s1 == 0;                      /* conflicting Discover               */
+            return s1 == 1;
+        case 2: /* Pending */
+            if (ev == 0x03 || ev == 0x05) return s1 == 3;
+            return s1 == 2;
+        case 3: /* Complete */
+            if (ev == 0x04) return s1 == 2;
+            return s1 == 3;
+        case 0: /* Temporary */
+            if (ev == 0x07 || ev == 0x06) return s1 == 1;
+            return s1 == 0;
+        default:
+            return false;
+    }
+}
+
+#define STEP_FRAME(a)  ((a)->last_ts == v_now_s() && v_autom_closed(a))
+
+/* generic step relation (table-independent): without a timeout on entry the successor is the target of a
+ * transition matching (state, input), or the state itself when none matches.  Deliberately silent on WHICH
+ * of several matching transitions wins, and on the timed-out case (that is decided at the lemma harnesses
+ * against the real tables).  Strong enough for the recursive call after a timeout. */
+static inline bool v_autom_step_rel(const automata *a, uint8_t s0, int input, uint8_t s1) {
+    bool any = false, hit = false;
+    for (int i = 0; i < MAX_TRANSITIONS; i++) {
+        if (i < a->transitions_no && a->transitions_table[i].from == s0 && a->transitions_table[i].with == input) {
+            any = true;
+            if (a->transitions_table[i].to == s1) hit = true;
+        }
+    }
+    return any ? hit : (s1 == s0);
+}
+#define STEP_TIMED_OUT(a, s0, last0, now1) \
+    ((a)->states_table[s0].timeout != 0 && (uint64_t)((now1) - (last0)) > (uint64_t)(a)->states_table[s0].timeout)
+#define STEP_GENERIC(a, s0, input, last0, now1) \
+    (STEP_TIMED_OUT(a, s0, last0, now1) || v_autom_step_rel((a), (s0), (input), (a)->current_state))
+
+automata *switch_state_mapping(automata *autom, int input, char *debug)
+__CPROVER_requires(PRE_switch(autom))
+__CPROVER_assigns(autom->current_state, autom->last_ts, g_led)
+__CPROVER_ensures(__CPROVER_return_value == autom) /*@C14.ret C01.ret*/
+__CPROVER_ensures(STEP_GENERIC(autom, __CPROVER_old(autom->current_state), input, __CPROVER_old(autom->last_ts), v_next_s(__CPROVER_old(g_led.clk_reads), __CPROVER_old(g_led.clk_s)))) /*@C14.step-generic*/
+__CPROVER_ensures(STEP_FRAME(autom)) /*@C14.last-ts C01.closed*/
+;
+
+automata *switch_state_session(automata *autom, int input, char *debug)
+__CPROVER_requires(PRE_switch(autom))
+__CPROVER_assigns(autom->current_state, autom->last_ts, g_led)
+__CPROVER_ensures(__CPROVER_return_value == autom) /*@C15.ret C01.ret*/
+__CPROVER_ensures(STEP_GENERIC(autom, __CPROVER_old(autom->current_state), input, __CPROVER_old(autom->last_ts), v_next_s(__CPROVER_old(g_led.clk_reads), __CPROVER_old(g_led.clk_s)))) /*@C15.step-generic*/
+__CPROVER_ensures(STEP_FRAME(autom)) /*@C15.last-ts C01.closed*/
+;
+
+automata *switch_state_enumeration(automata *autom, int input, char *debug)
+__CPROVER_requires(PRE_switch(autom))
+__CPROVER_assigns(autom->current_state, autom->last_ts, g_led)
+__CPROVER_ensures(__CPROVER_return_value == autom) /*@C12.ret C01.ret*/
+__CPROVER_ensures(STEP_FRAME(autom)) /*@C12.last-ts C01.closed*/
+;
+
+/* =============================== C18: constructors =============================================== */
+#define CTOR_BASE(ret, nstates, s0) \
+    ((ret) == NULL || (V_RW_OK((ret), sizeof(automata)) && (ret)->states_no == (nstates) && v_autom_closed(ret) && \
+                       (ret)->current_state == (s0) && (ret)->last_ts <= v_now_s()))
+#define MSTATE_INIT(m)  ((m)->ctc == 0 && (m)->charge_timeout_ts == 0 && (m)->inactive_timeout_ts == 0)
+#define BSTATE_INIT(b)  ((b)->Ni == 45u && (b)->r == 0u && !(b)->begun && (b)->hello_timeout_ts == 0 && (b)->block_timeout_ts == 0)
+#define C18_CTOR_MAPPING(ret) \
+    (CTOR_BASE(ret, 3, 0) && ((ret) == NULL || (ret)->extra == NULL || MSTATE_INIT((mapping_state *)(ret)->extra)))
+#define C18_CTOR_ENUM(ret) \
+    (CTOR_BASE(ret, 3, 0) && ((ret) == NULL || (ret)->extra == NULL || BSTATE_INIT((band_state *)(ret)->extra)))
+#define C18_CTOR_SESSION(ret) \
+    (CTOR_BASE(ret, 4, 1) && ((ret) == NULL || (ret)->extra == NULL))
+/* nothing leaked: live allocations grew by exactly what the result holds */
+#define C18_CTOR_LEDGER(ret, live0) \
+    (g_led.live == (live0) + ((ret) != NULL ? 1u : 0u) + (((ret) != NULL && (ret)->extra != NULL) ? 1u : 0u))
+
+automata *init_automata_mapping(void)
+__CPROVER_assigns(g_led)
+__CPROVER_ensures(C18_CTOR_MAPPING(__CPROVER_return_value)) /*@C18.ctor-mapping*/
+__CPROVER_ensures(C18_CTOR_LEDGER(__CPROVER_return_value, __CPROVER_old(g_led.live))) /*@C18.ctor-ledger C19.ctor-ledger*/
+;
+automata *init_automata_enumeration(void)
+__CPROVER_assigns(g_led)
+__CPROVER_ensures(C18_CTOR_ENUM(__CPROVER_return_value)) /*@C18.ctor-enumeration*/
+__CPROVER_ensures(C18_CTOR_LEDGER(__CPROVER_return_value, __CPROVER_old(g_led.live))) /*@C18.ctor-ledger C19.ctor-ledger*/
+;
+automata *init_automata_session(void)
+__CPROVER_assigns(g_led)
+__CPROVER_ensures(C18_CTOR_SESSION(__CPROVER_return_value)) /*@C18.ctor-session*/
+__CPROVER_ensures(C18_CTOR_LEDGER(__CPROVER_return_value, __CPROVER_old(g_led.live))) /*@C18.ctor-ledger C19.ctor-ledger*/
+;
+
 #endif
